@@ -53,7 +53,8 @@ Record cfg := mkCfg {
   (* the image class a file gets when an image of class x is saved under a name of family n (the .img/.hdr
      names hold a NIfTI pair or an SPM Analyze image: loadsave.save keeps the class when the name fits it, else
      converts - Nifti1Image -> Nifti1Pair, ... ); measured into C09/Tables.v *)
-  g_tclass : fmt -> fmt -> fmt }.                        (* fix 29b7b6ce: after a write onto the file the image's own proxy
+  g_tclass : fmt -> fmt -> fmt;
+  g_viewfix : bool }.                        (* fix 9bb93cff: unmap_if_target follows the .base chain to the map *)                        (* fix 29b7b6ce: after a write onto the file the image's own proxy
                                                 reads, _dataobj becomes the in-memory data and the caches go *)
 
 Definition pinfo_of (g : cfg) (p : nat) : pinfo := nth p (g_paths g) (mkP Nii false).
@@ -145,8 +146,10 @@ Definition mapped (g : cfg) (im : image) : option nat :=
   | SMap p _ _ => Some p
   | SArray _ => None
   end.
-(* does unmap_if_target see that the data are mapped?  (isinstance(data, np.memmap) and data.filename) *)
-Definition recognised (im : image) : bool := match i_src im with SMap _ _ cov => cov | _ => true end.
+(* does unmap_if_target see that the data are mapped?  Before 9bb93cff only an np.memmap instance with a filename;
+   since then every array whose chain of bases reaches such a map *)
+Definition recognised (g : cfg) (im : image) : bool :=
+  match i_src im with SMap _ _ cov => cov || g_viewfix g | _ => true end.
 (* is get_fdata()'s float64 result that very map?  (little-endian float64 on disk: astype(copy=False)
    returns its argument; MGH data are big-endian and always copied) *)
 Definition aliasable (g : cfg) (im : image) : option (nat * dtype) :=
@@ -297,7 +300,7 @@ Definition do_save (g : cfg) (w : world) (s t : nat) (hd : option dtype) : world
         if writer_refuses g tf od then (w, ORefused EWriter) else
         (* unmap_if_target: os.path.samefile - the same FILE, whatever the names *)
         let own_map := match mapped g im with Some p => Nat.eqb (fid g p) (fid g t) | None => false end in
-        if own_map && negb (g_fix g && recognised im) then
+        if own_map && negb (g_fix g && recognised g im) then
           (* without unmap_if_target: the target is opened 'wb' (truncated), the header written,
              then the data are read through the map of that very file *)
           if roundup (g_off g tf) (g_page g) <? needed g t (match i_src im with SProxy _ d _ _ => d | SMap _ d _ => d | SArray _ => od end)
